@@ -308,6 +308,11 @@ pub mod multi_writer {
     }
     // R9: methods of `impl LogWriter for MultiWriter` emitted as inherent methods
     impl MultiWriter {
+        /// oracle: the ceiling MultiWriter reports (the greater of its writers' ceilings; an iterator chain outside Verus)
+        pub uninterp spec fn max_level_oracle(&self) -> log::LevelFilter;
+    //@ sig src/primary_writer/multi_writer.rs impl LogWriter for MultiWriter / fn max_log_level
+    //@   ret r
+    //@   ens r == self.max_level_oracle()
     //@ fn src/primary_writer/multi_writer.rs impl LogWriter for MultiWriter / fn write
     //@   ret r
     //@   props C13
